@@ -60,6 +60,10 @@ RECURSIVE ChebTFrom(_, _, _, _, _, _)
 ChebTFrom(c, n, k, tk, tkm1, bits) == IF k = n THEN tk ELSE ChebTFrom(c, n, k + 1, DyTrunc(DySub(DyScale(DyMul(c, tk), 1), tkm1), bits), tk, bits)
 ChebT(n, c, bits) == IF n = 0 THEN Dy1 ELSE ChebTFrom(DyTrunc(c, bits), n, 1, DyTrunc(c, bits), Dy1, bits)
 
+\* Chebyshev polynomial of the second kind U_n(c) = sin((n+1) acos c) / sin(acos c)  (U_0 = 1, U_1 = 2c, same recurrence), truncated
+\* alike: T_n' = n U_{n-1}, so n |U_{n-1}(c)| is the conditioning of T_n(c) with respect to c
+ChebUT(n, c, bits) == IF n = 0 THEN Dy1 ELSE ChebTFrom(DyTrunc(c, bits), n, 1, DyTrunc(DyScale(c, 1), bits), Dy1, bits)
+
 \* rational bounds of pi (for "the angle is pi within t")
 PiLo == Dy(ZOf(843314856), -28)              \* 3.14159265... * 2^28 rounded down
 PiHi == Dy(ZOf(843314857), -28)
